@@ -1,7 +1,7 @@
 //! C14: output_delay() reports the true alignment delay of the output stream.
 
 use crate::cfg::{Cfg, Degree, Interp, Kernel, Kind};
-use crate::e2::resample_all_full;
+use crate::e2::{resample_all_x, Opts};
 use crate::frame::{Check, JournalFile, Tier};
 use crate::run::Flt;
 use serde_json::{json, Map, Value};
@@ -11,6 +11,20 @@ pub struct C14;
 fn lattice(tier: Tier) -> Vec<(Cfg, Option<f64>, u8)> {
     let mut out = lattice_a(tier);
     out.extend(warm_reset_lattice().into_iter().map(|c| (c, None, 2u8)));
+    // the new ratio requested twice on the fresh resampler: first with a ramp, then without
+    // (the second request replaces the pending ramp: the stream runs at the new ratio throughout)
+    for (r, m, x) in [(1.0, 2.0, 1.5), (1.0, 2.0, 0.6), (0.5, 4.0, 3.0)] {
+        for chunk in [64usize, 1024] {
+            for kind in [Kind::SI, Kind::SO] {
+                let mut c = Cfg::sinc(kind, r, m, chunk, 64, 128, Interp::Cubic, Kernel::Dispatch);
+                c.f_cutoff = 0.9;
+                out.push((c, Some(x), 3u8));
+            }
+            for kind in [Kind::FI, Kind::FO] {
+                out.push((Cfg::fast(kind, r, m, chunk, Degree::Cubic), Some(x), 3u8));
+            }
+        }
+    }
     out
 }
 
@@ -147,7 +161,7 @@ fn one<T: Flt>(acc: &mut Acc, cfg: &Cfg, pre: Option<f64>, mode: u8, n0: usize, 
     let block = if cfg.kind.is_fft() { 4 * crate::kf::fft_sizes(cfg).0.max(crate::kf::fft_sizes(cfg).1) } else { 0 };
     let n_in = n0 + margin + 3 * cfg.chunk.max(1) * (1.0f64.max(1.0 / r)) as usize + block + 2000;
     let x: Vec<f64> = (0..n_in).map(|n| (-0.5 * ((n as f64 - n0 as f64) / sigma).powi(2)).exp()).collect();
-    let s = resample_all_full::<T>(cfg, &x, pre, false, rejected_first, if mode == 2 { 3 } else { 0 })?;
+    let s = resample_all_x::<T>(cfg, &x, &Opts { pre, ramp_then_step: mode == 3, rejected_first, warmup: if mode == 2 { 3 } else { 0 }, ..Opts::default() })?;
     acc.evals += 1;
     if let Some((call, value)) = s.delay_changed {
         acc.outcomes.insert(format!("{}:delay-changes", cfg.kind.name()));
@@ -160,7 +174,7 @@ fn one<T: Flt>(acc: &mut Acc, cfg: &Cfg, pre: Option<f64>, mode: u8, n0: usize, 
         m0 += y * y;
         m1 += y * y * k as f64;
     }
-    let point = format!("T={} pulse at input frame {} (sigma {:.1}){}", T::NAME, n0, sigma, pre.map(|x| format!(", after set_resample_ratio_relative({}, false) on the fresh resampler", x)).unwrap_or_default() + if rejected_first { ", after one rejected call (short input)" } else if mode == 2 { ", after three loud warm-up chunks and reset()" } else { "" });
+    let point = format!("T={} pulse at input frame {} (sigma {:.1}){}", T::NAME, n0, sigma, pre.map(|x| format!(", after set_resample_ratio_relative({}, false) on the fresh resampler", x)).unwrap_or_default() + if rejected_first { ", after one rejected call (short input)" } else if mode == 2 { ", after three loud warm-up chunks and reset()" } else if mode == 3 { " (requested with ramp, then again without)" } else { "" });
     if m0 < 1e-6 {
         acc.outcomes.insert(format!("{}:no-pulse", cfg.kind.name()));
         acc.found.push(json!({"prop": "C14", "sig": "pulse-missing", "detail": format!("the pulse does not appear in {} output frames", s.out.len()), "cfg": cfg.to_json(), "history": "", "point": point}));
@@ -282,7 +296,7 @@ impl Check for C14 {
             recipe(&mut acc, &cfg, pre)?;
         }
         Ok(json!({
-            "label": format!("{}{}", cfg.short(), pre.map(|x| format!(" rel {}", x)).unwrap_or_default() + match mode { 1 => " after a rejected call", 2 => " after warm-up and reset", _ => "" }), "evaluations": acc.evals, "nontrivial": acc.nontrivial,
+            "label": format!("{}{}", cfg.short(), pre.map(|x| format!(" rel {}", x)).unwrap_or_default() + match mode { 1 => " after a rejected call", 2 => " after warm-up and reset", 3 => " ramp then step", _ => "" }), "evaluations": acc.evals, "nontrivial": acc.nontrivial,
             "outcomes": acc.outcomes.iter().collect::<Vec<_>>(), "found": acc.found,
             "samples": [{"cfg": cfg.short(), "events": "Gaussian pulses (sigma 6*max(1,1/ratio) input frames) at 6 positions incl. chunk boundary +-1; README recipe on one clip"}],
             "extra": {"worst": acc.worst},
